@@ -18,7 +18,7 @@ def batch_case(chk, d, N, n_inner, mode, model_kind, loss_kind, imputer_kind):
     rig = explain.Rig(rng, kind="batch", d=d, names_kind=rng.choice(["str", "int", "mixed"]), n_inner=n_inner,
                       storage_kind="batch", storage_size=1, imputer_kind=imputer_kind, model_kind=model_kind, loss_kind=loss_kind)
     data = [(rig.gen_x(), rig.gen_y()) for _ in range(N)]
-    for x, y in data[:-1] if mode == "one" else data:
+    for x, y in data[:-1] if mode in ("one", "one-original") else data:
         rig.ex.update_storage(x, y)
     rig.log, rig.imp_calls = [], []
     rig.draws = hrng.Scripted(pyrandom.Random(rng.randrange(10 ** 9)), real_fn=lambda r: r.random())
@@ -33,6 +33,8 @@ def batch_case(chk, d, N, n_inner, mode, model_kind, loss_kind, imputer_kind):
                     ret = rig.ex.explain_many(xs, ys, verbose=False)
                 elif mode == "original":
                     ret = rig.ex.explain_many_original(xs, ys, verbose=False)
+                elif mode == "one-original":
+                    ret = rig.ex.explain_one(data[-1][0], data[-1][1], original_sage=True, verbose=False)
                 else:
                     ret = rig.ex.explain_one(data[-1][0], data[-1][1], verbose=False)
     except Exception as ex:
@@ -49,7 +51,7 @@ def batch_case(chk, d, N, n_inner, mode, model_kind, loss_kind, imputer_kind):
     obs = []
     mlog = rig.model_log[nlog0 + N:]  # after the batch call
     for i, (x, y) in enumerate(data):
-        if mode == "original":
+        if mode in ("original", "one-original"):
             perm = perms_drawn[i] if i < len(perms_drawn) else None
             if perm is None:
                 return rig, desc, "no feature order drawn for an observation", None
@@ -178,19 +180,21 @@ def run(tier="quick", seed=0, replay=None):
         return 1
     core.lean_stage(chk, "C05")
     from harness import cover
+    from harness import fingerprint
+    fingerprint.direct(chk, ['ixai/explainer/sage/batch.py', 'ixai/explainer/sage/interval.py', 'ixai/explainer/base.py'])
     _cv = cover.Cover(['ixai/explainer/sage/batch.py', 'ixai/explainer/sage/interval.py', 'ixai/explainer/base.py'])
     _cv.__enter__()
     quick = tier == "quick"
     reqs, impls = [], []
-    for i in range(45 if quick else 500):
-        mode = ["many", "original", "one"][i % 3]
+    for i in range(chk.count(45, 500)):
+        mode = ["many", "original", "one", "one-original"][i % 4]
         d, N, n_inner = chk.rng.randint(1, 3), chk.rng.randint(1, 5), chk.rng.randint(1, 2)
         rig, desc, fail, tie = batch_case(chk, d, N, n_inner, mode, chk.rng.choice(["scalar", "multi", "grow"]),
                                           chk.rng.choice(["arbitrary", "squared"]), chk.rng.choice(["joint", "product"]))
         chk.case(desc, nontrivial=N >= 2)
         chk.stat(f"batch:{mode}")
         if fail:
-            chk.violation(f"batch:{mode}", f"BatchSage.{ {'many': 'explain_many', 'original': 'explain_many_original', 'one': 'explain_one'}[mode] } "
+            chk.violation(f"batch:{mode}", f"BatchSage.{ {'many': 'explain_many', 'original': 'explain_many_original', 'one': 'explain_one', 'one-original': 'explain_one(original_sage=True)'}[mode] } "
                           f"(d={d}, {N} observations, n_inner={n_inner}): {fail}", desc)
         elif tie:
             reqs.append(tie[0])
@@ -198,7 +202,7 @@ def run(tier="quick", seed=0, replay=None):
     R = (1, 2, 3) if quick else (1, 2, 3, 4)
     for L in R:
         for SL in R:
-            for rep in range(1 if quick else 4):
+            for rep in range(chk.count(1, 4)):
                 d, n_inner = chk.rng.randint(1, 2), 1
                 rig, desc, fail, tie = interval_case(chk, d, L, SL, chk.rng.randint(6, 8), n_inner)
                 chk.case(desc, nontrivial=True)
